@@ -140,6 +140,13 @@ atexit.register(_cleanup)
 # Comparison helpers (never raise on malformed output: a malformed output is a difference)
 # ------------------------------------------------------------------------------------------
 
+def ulp_tol(x):
+    """Relative tolerance of a few units in the last place for floating results (NumPy's strided and
+    contiguous inner loops of pow/divide may differ in the last bit); 0 for exact dtypes."""
+    dt = np.asarray(x).dtype
+    return 8 * float(np.finfo(dt).eps) if dt.kind == 'f' else 0
+
+
 def same(a, b, dtype=True, rtol=0, atol=0, equal_nan=True):
     """Return None if arrays a (observed) and b (expected) agree, else a string saying how not."""
     try:
